@@ -393,3 +393,184 @@ Proof.
 Qed.
 
 Print Assumptions C03_distribute_loop_fuel_suffices_refuted.
+
+(* ------------------------------------------------------------------------------------------------------------------
+   Wave 9d: `distribute_loop` at the intrinsic-sizing call sites (rows (b), (c) of the table in notes/FUEL.md).
+   `mstep_progress` generalised to an arbitrary affected-filter, proportion, affected property and limit (exact instance XQ).
+   Class (Model/FuelDistDefs.v): `inc_inv f` -- f does not read item_incurred_increase, the only field a round writes (true of every
+   function the model passes: C03_intrinsic_distribute_parameters_inc_inv); `dist_ok p prop lim` -- affected property finite, limit
+   finite or +inf, incurred increase finite and >= 0, proportion finite and >= 0; finite space.
+   Off the class the statement is false: C03_distribute_loop_fuel_suffices_refuted (NaN proportion). *)
+From TV Require Model.FuelDistDefs Proofs.FuelDistProofs.
+
+(* distribute_space_up_to_limits with the fuel it passes: the result passes the exit test, more fuel changes nothing, and the result is
+   in the class again (so a second distribution over it is covered as well) *)
+Theorem C03_distribute_loop_fuel_suffices :
+  forall (aff : TV.Model.GridTracks.track TV.Num.QNum.XQ -> bool) (p prop lim : TV.Model.GridTracks.track TV.Num.QNum.XQ -> TV.Num.QNum.XQ),
+    TV.Model.FuelDistDefs.inc_inv aff -> TV.Model.FuelDistDefs.inc_inv p -> TV.Model.FuelDistDefs.inc_inv prop -> TV.Model.FuelDistDefs.inc_inv lim ->
+    forall (sp : QArith_base.Q) (tracks : list (TV.Model.GridTracks.track TV.Num.QNum.XQ)),
+      Forall (TV.Model.FuelDistDefs.dist_ok p prop lim) tracks ->
+      let r := TV.Model.GridTracks.distribute_space_up_to_limits (TV.Num.QNum.Fin sp) tracks aff p prop lim in
+      TV.Model.GridTracks.distribute_step aff p prop lim (fst r) (snd r) = None /\
+      (forall extra, TV.Model.GridTracks.distribute_loop aff p prop lim (TV.Model.GridTracks.distribute_fuel tracks + extra) (TV.Num.QNum.Fin sp) tracks = r) /\
+      Forall (TV.Model.FuelDistDefs.dist_ok p prop lim) (snd r) /\ TV.Num.QNum.finite (fst r) /\ length (snd r) = length tracks.
+Proof. exact TV.Proofs.FuelDistProofs.dist_fuel_suffices. Qed.
+
+(* (b) distribute_item_space_to_base_size_inner: both of its calls of distribute_space_up_to_limits (the second runs on the result of the
+   first, with the filter `base_filter2`) leave through the exit test, and the function is the same with any additional fuel at either
+   call (`base_inner_fuelled 0 0` IS the model's function: C03_intrinsic_distribute_fuelled_copies) *)
+Theorem C03_intrinsic_distribute_base_fuel_suffices :
+  forall (sp : QArith_base.Q) (tracks : list (TV.Model.GridTracks.track TV.Num.QNum.XQ)) (aff : TV.Model.GridTracks.track TV.Num.QNum.XQ -> bool)
+         (p lim : TV.Model.GridTracks.track TV.Num.QNum.XQ -> TV.Num.QNum.XQ) (ct : TV.Model.GridTracks.contribution_type),
+    TV.Model.FuelDistDefs.inc_inv aff -> TV.Model.FuelDistDefs.inc_inv p -> TV.Model.FuelDistDefs.inc_inv lim ->
+    Forall (TV.Model.FuelDistDefs.dist_ok p TV.Model.GridTracks.base_size lim) tracks ->
+    let extra := TV.Num.Num.fmax TV.Num.Num.zero
+                   (TV.Num.Num.sub (TV.Num.QNum.Fin sp) (TV.Num.Num.fsum (map TV.Model.GridTracks.base_size tracks))) in
+    let r1 := TV.Model.GridTracks.distribute_space_up_to_limits extra tracks aff p TV.Model.GridTracks.base_size lim in
+    let f2 := TV.Model.FuelDistDefs.base_filter2 ct aff (snd r1) in
+    let r2 := TV.Model.GridTracks.distribute_space_up_to_limits (fst r1) (snd r1) f2 p TV.Model.GridTracks.base_size lim in
+    TV.Model.GridTracks.distribute_step aff p TV.Model.GridTracks.base_size lim (fst r1) (snd r1) = None /\
+    TV.Model.GridTracks.distribute_step f2 p TV.Model.GridTracks.base_size lim (fst r2) (snd r2) = None /\
+    forall e1 e2, TV.Model.FuelDistDefs.base_inner_fuelled e1 e2 (TV.Num.QNum.Fin sp) tracks aff p lim ct
+                  = TV.Model.GridTracks.distribute_item_space_to_base_size_inner (TV.Num.QNum.Fin sp) tracks aff p lim ct.
+Proof. exact TV.Proofs.FuelDistProofs.base_inner_fuel_suffices. Qed.
+
+(* (b) as `to_base` (every step of general_batch / m_general_batch) calls it: distribute_item_space_to_base_size picks the filter
+   (`is_flexible && affected` for a flexible batch) and the proportion (flex_factor when use_flex_factor, else 1) *)
+Theorem C03_intrinsic_distribute_base_size_fuel_suffices :
+  forall (is_flex uff : bool) (sp : QArith_base.Q) (tracks : list (TV.Model.GridTracks.track TV.Num.QNum.XQ))
+         (aff : TV.Model.GridTracks.track TV.Num.QNum.XQ -> bool) (lim : TV.Model.GridTracks.track TV.Num.QNum.XQ -> TV.Num.QNum.XQ)
+         (ct : TV.Model.GridTracks.contribution_type),
+    TV.Model.FuelDistDefs.inc_inv aff -> TV.Model.FuelDistDefs.inc_inv lim ->
+    Forall (TV.Model.FuelDistDefs.dist_ok (TV.Model.FuelDistDefs.base_size_proportion is_flex uff) TV.Model.GridTracks.base_size lim) tracks ->
+    forall e1 e2, TV.Model.FuelDistDefs.base_size_fuelled e1 e2 is_flex uff (TV.Num.QNum.Fin sp) tracks aff lim ct
+                  = TV.Model.GridTracks.distribute_item_space_to_base_size is_flex uff (TV.Num.QNum.Fin sp) tracks aff lim ct.
+Proof. exact TV.Proofs.FuelDistProofs.base_size_fuel_suffices. Qed.
+
+(* (c) distribute_item_space_to_growth_limit (<- to_limit): proportion 1, affected property limit_or_base, limit fit_content_limit inner *)
+Theorem C03_intrinsic_distribute_limit_fuel_suffices :
+  forall (inner : option TV.Num.QNum.XQ) (sp : QArith_base.Q) (tracks : list (TV.Model.GridTracks.track TV.Num.QNum.XQ))
+         (aff : TV.Model.GridTracks.track TV.Num.QNum.XQ -> bool),
+    TV.Model.FuelDistDefs.inc_inv aff ->
+    Forall (TV.Model.FuelDistDefs.dist_ok (fun _ => TV.Num.Num.one) TV.Model.GridIntrinsic.limit_or_base (TV.Model.GridTracks.fit_content_limit inner)) tracks ->
+    let extra := TV.Num.Num.fmax TV.Num.Num.zero
+                   (TV.Num.Num.sub (TV.Num.QNum.Fin sp) (TV.Num.Num.fsum (map TV.Model.GridIntrinsic.limit_or_base tracks))) in
+    let r := TV.Model.GridTracks.distribute_space_up_to_limits extra tracks aff (fun _ => TV.Num.Num.one) TV.Model.GridIntrinsic.limit_or_base
+               (TV.Model.GridTracks.fit_content_limit inner) in
+    TV.Model.GridTracks.distribute_step aff (fun _ => TV.Num.Num.one) TV.Model.GridIntrinsic.limit_or_base (TV.Model.GridTracks.fit_content_limit inner)
+      (fst r) (snd r) = None /\
+    forall e, TV.Model.FuelDistDefs.growth_limit_fuelled inner e (TV.Num.QNum.Fin sp) tracks aff
+              = TV.Model.GridIntrinsic.distribute_item_space_to_growth_limit inner (TV.Num.QNum.Fin sp) tracks aff.
+Proof. exact TV.Proofs.FuelDistProofs.growth_limit_fuel_suffices. Qed.
+
+(* the fuel-parametrised copies are the model's functions at 0 additional fuel (by computation, any `Num`) *)
+Theorem C03_intrinsic_distribute_fuelled_copies :
+  forall (T : Type) (H : TV.Num.Num.Num T),
+    (forall space tracks aff (p lim : TV.Model.GridTracks.track T -> T) ct,
+       TV.Model.FuelDistDefs.base_inner_fuelled 0 0 space tracks aff p lim ct
+       = TV.Model.GridTracks.distribute_item_space_to_base_size_inner space tracks aff p lim ct) /\
+    (forall is_flex uff space tracks aff (lim : TV.Model.GridTracks.track T -> T) ct,
+       TV.Model.FuelDistDefs.base_size_fuelled 0 0 is_flex uff space tracks aff lim ct
+       = TV.Model.GridTracks.distribute_item_space_to_base_size is_flex uff space tracks aff lim ct) /\
+    (forall inner space tracks (aff : TV.Model.GridTracks.track T -> bool),
+       TV.Model.FuelDistDefs.growth_limit_fuelled inner 0 space tracks aff
+       = TV.Model.GridIntrinsic.distribute_item_space_to_growth_limit inner space tracks aff).
+Proof. intros T H. repeat split. Qed.
+
+(* every proportion, limit and filter the steps of general_batch pass (Model/GridIntrinsic.v step_minimums .. step_max_content_maximums)
+   is `inc_inv`: they read the sizing functions, base size and growth limit only *)
+Theorem C03_intrinsic_distribute_parameters_inc_inv :
+  forall (inner : option TV.Num.QNum.XQ),
+    TV.Model.FuelDistDefs.inc_inv (@TV.Model.GridTracks.flex_factor TV.Num.QNum.XQ _) /\
+    TV.Model.FuelDistDefs.inc_inv (fun _ : TV.Model.GridTracks.track TV.Num.QNum.XQ => @TV.Num.Num.one TV.Num.QNum.XQ _) /\
+    TV.Model.FuelDistDefs.inc_inv (@TV.Model.GridTracks.growth_limit TV.Num.QNum.XQ) /\
+    TV.Model.FuelDistDefs.inc_inv (TV.Model.GridTracks.fit_content_limited_growth_limit inner) /\
+    TV.Model.FuelDistDefs.inc_inv (fun _ : TV.Model.GridTracks.track TV.Num.QNum.XQ => @TV.Num.Num.infinity TV.Num.QNum.XQ _) /\
+    TV.Model.FuelDistDefs.inc_inv (TV.Model.GridTracks.fit_content_limit inner) /\
+    TV.Model.FuelDistDefs.inc_inv (@TV.Model.GridIntrinsic.limit_or_base TV.Num.QNum.XQ _) /\
+    TV.Model.FuelDistDefs.inc_inv (TV.Model.GridIntrinsic.has_intrinsic_min inner) /\
+    TV.Model.FuelDistDefs.inc_inv (fun t : TV.Model.GridTracks.track TV.Num.QNum.XQ => TV.Model.GridTracks.is_min_or_max_content (TV.Model.GridTracks.minf t)) /\
+    TV.Model.FuelDistDefs.inc_inv (@TV.Model.GridIntrinsic.has_max_content_min TV.Num.QNum.XQ) /\
+    TV.Model.FuelDistDefs.inc_inv (@TV.Model.GridIntrinsic.has_auto_min TV.Num.QNum.XQ) /\
+    TV.Model.FuelDistDefs.inc_inv (fun t : TV.Model.GridTracks.track TV.Num.QNum.XQ => negb (TV.Model.GridIntrinsic.has_definite_value inner (TV.Model.GridTracks.maxf t))) /\
+    TV.Model.FuelDistDefs.inc_inv (TV.Model.GridIntrinsic.has_max_content_max inner).
+Proof. intro inner. repeat split. Qed.
+
+Print Assumptions C03_distribute_loop_fuel_suffices.
+Print Assumptions C03_intrinsic_distribute_base_fuel_suffices.
+Print Assumptions C03_intrinsic_distribute_base_size_fuel_suffices.
+Print Assumptions C03_intrinsic_distribute_limit_fuel_suffices.
+Print Assumptions C03_intrinsic_distribute_fuelled_copies.
+Print Assumptions C03_intrinsic_distribute_parameters_inc_inv.
+
+(* ---- non-vacuity, on inputs where the loop needs more than one round ----
+   (b) flexible batch, proportion = flex factor: factors 1, 3, 0 with growth limits 10, inf, inf, contribution 60.  Round 1: the
+       head-room ratios are 10/1, inf, inf (zero proportion: `x / 0 = inf`), space / psum = 15: increase 10, the first track reaches its
+       limit, 20 left.  Round 2: one growable track with a positive proportion, increase 20/3 per unit; the test of the loop body does not
+       look at the incurred increase, so the first track accepts 20/3 more; -20/3 left: exit.  The zero-proportion track stays growable
+       throughout and never receives anything.
+   (c) two fit-content tracks (limits 10, 100; growth limit 5), contribution 70: extra space 60; round 1 gives 5 to both, round 2 the
+       remaining 50 to the second. *)
+Definition C03_ex_flex_tracks : list (TV.Model.GridTracks.track TV.Num.QNum.XQ) :=
+  let f := TV.Num.QNum.Fin in
+  let z := f 0%Q in
+  [ TV.Model.GridTracks.mk_track TV.Model.GridTracks.KTrack false TV.Model.GridTracks.SAuto (TV.Model.GridTracks.SFr (f 1%Q)) z z (f 10%Q) z z z false;
+    TV.Model.GridTracks.mk_track TV.Model.GridTracks.KTrack false TV.Model.GridTracks.SAuto (TV.Model.GridTracks.SFr (f 3%Q)) z z TV.Num.QNum.PInf z z z false;
+    TV.Model.GridTracks.mk_track TV.Model.GridTracks.KTrack false TV.Model.GridTracks.SAuto (TV.Model.GridTracks.SFr (f 0%Q)) z z TV.Num.QNum.PInf z z z false ].
+Example C03_intrinsic_distribute_base_fuel_example :
+  let loop := TV.Model.GridTracks.distribute_loop (fun _ => true) TV.Model.GridTracks.flex_factor TV.Model.GridTracks.base_size TV.Model.GridTracks.growth_limit in
+  Forall (TV.Model.FuelDistDefs.dist_ok TV.Model.GridTracks.flex_factor TV.Model.GridTracks.base_size TV.Model.GridTracks.growth_limit) C03_ex_flex_tracks /\
+  Forall (TV.Model.FuelDistDefs.dist_ok (TV.Model.FuelDistDefs.base_size_proportion true true) TV.Model.GridTracks.base_size TV.Model.GridTracks.growth_limit) C03_ex_flex_tracks /\
+  (let r := loop 1%nat (TV.Num.QNum.Fin 60%Q) C03_ex_flex_tracks in
+   TV.Model.GridTracks.distribute_step (fun _ => true) TV.Model.GridTracks.flex_factor TV.Model.GridTracks.base_size TV.Model.GridTracks.growth_limit (fst r) (snd r) <> None) /\
+  map TV.Model.GridTracks.incurred (snd (loop (TV.Model.GridTracks.distribute_fuel C03_ex_flex_tracks) (TV.Num.QNum.Fin 60%Q) C03_ex_flex_tracks))
+  = [TV.Num.QNum.Fin (50 # 3)%Q; TV.Num.QNum.Fin (150 # 3)%Q; TV.Num.QNum.Fin 0%Q] /\
+  map TV.Model.GridTracks.base_planned
+      (TV.Model.GridTracks.distribute_item_space_to_base_size true true (TV.Num.QNum.Fin 60%Q) C03_ex_flex_tracks (fun _ => true)
+         TV.Model.GridTracks.growth_limit TV.Model.GridTracks.CMinimum)
+  = [TV.Num.QNum.Fin (50 # 3)%Q; TV.Num.QNum.Fin (150 # 3)%Q; TV.Num.QNum.Fin 0%Q].
+Proof.
+  cbv zeta. split; [|split; [|split; [vm_compute; discriminate|split; vm_compute; reflexivity]]];
+    apply TV.Proofs.FuelDistProofs.dist_okb_sound; vm_compute; reflexivity.
+Qed.
+Definition C03_ex_fit_tracks : list (TV.Model.GridTracks.track TV.Num.QNum.XQ) :=
+  let f := TV.Num.QNum.Fin in
+  let z := f 0%Q in
+  [ TV.Model.GridTracks.mk_track TV.Model.GridTracks.KTrack false TV.Model.GridTracks.SAuto (TV.Model.GridTracks.SFitPx (f 10%Q)) z z (f 5%Q) z z z false;
+    TV.Model.GridTracks.mk_track TV.Model.GridTracks.KTrack false TV.Model.GridTracks.SAuto (TV.Model.GridTracks.SFitPx (f 100%Q)) z z (f 5%Q) z z z false ].
+Example C03_intrinsic_distribute_limit_fuel_example :
+  let lim := TV.Model.GridTracks.fit_content_limit (@None TV.Num.QNum.XQ) in
+  let loop := TV.Model.GridTracks.distribute_loop (fun _ => true) (fun _ => TV.Num.Num.one) TV.Model.GridIntrinsic.limit_or_base lim in
+  Forall (TV.Model.FuelDistDefs.dist_ok (fun _ => TV.Num.Num.one) TV.Model.GridIntrinsic.limit_or_base lim) C03_ex_fit_tracks /\
+  (let r := loop 1%nat (TV.Num.QNum.Fin 60%Q) C03_ex_fit_tracks in
+   TV.Model.GridTracks.distribute_step (fun _ => true) (fun _ => TV.Num.Num.one) TV.Model.GridIntrinsic.limit_or_base lim (fst r) (snd r) <> None) /\
+  map TV.Model.GridTracks.limit_planned
+      (TV.Model.GridIntrinsic.distribute_item_space_to_growth_limit None (TV.Num.QNum.Fin 70%Q) C03_ex_fit_tracks (fun _ => true))
+  = [TV.Num.QNum.Fin 5%Q; TV.Num.QNum.Fin 55%Q].
+Proof.
+  cbv zeta. split; [|split; [vm_compute; discriminate|vm_compute; reflexivity]].
+  apply TV.Proofs.FuelDistProofs.dist_okb_sound. vm_compute. reflexivity.
+Qed.
+
+(* `fr_loop` OUTSIDE the class of C03_fr_loop_fuel_suffices (finite space): with an infinite space to fill and a track `fr(0)` the
+   hypothetical fr size is inf in every round, `0 * inf` is NaN, both disjuncts of the validity test compare with NaN and are false:
+   no round is valid, the `loop` of find_size_of_fr is never left with ANY fuel (the model returns the flag `false` after
+   length + 2 rounds).  REPRODUCED on the implementation (notes/FUEL.fr0inf.rs, run under `timeout 5`): a grid container with
+   `size.width = length(INFINITY)`, `grid_template_columns: [fr(0.0)]` and one 50x20 child does not return from compute_layout (with
+   fr(1.0) it returns inf x 20).  Not an input the style generators produce; proposed as a known finding under C03 (notes/FUEL.md). *)
+Definition C03_ex_fr0_track : list (TV.Model.GridTracks.track TV.Num.QNum.XQ) :=
+  let z := TV.Num.QNum.Fin 0%Q in
+  [ TV.Model.GridTracks.mk_track TV.Model.GridTracks.KTrack false TV.Model.GridTracks.SAuto (TV.Model.GridTracks.SFr z) z z z z z z false ].
+Theorem C03_fr_loop_infinite_space_refuted :
+  exists (tracks : list (TV.Model.GridTracks.track TV.Num.QNum.XQ)) (sp : TV.Num.QNum.XQ),
+    Forall TV.Proofs.GridTracksProofs.track_ok2 tracks /\
+    forall fuel, snd (TV.Model.GridTracks.fr_loop fuel tracks sp TV.Num.Num.infinity) = false.
+Proof.
+  exists C03_ex_fr0_track, TV.Num.QNum.PInf. split.
+  - repeat constructor; vm_compute; try exact I; discriminate.
+  - intro fuel. change (@TV.Num.Num.infinity TV.Num.QNum.XQ _) with TV.Num.QNum.PInf.
+    induction fuel as [|f IH]; [reflexivity|]. cbn [TV.Model.GridTracks.fr_loop].
+    change (TV.Model.GridTracks.fr_next C03_ex_fr0_track TV.Num.QNum.PInf TV.Num.QNum.PInf) with TV.Num.QNum.PInf.
+    change (TV.Model.GridTracks.fr_valid C03_ex_fr0_track TV.Num.QNum.PInf TV.Num.QNum.PInf) with false. exact IH.
+Qed.
+Print Assumptions C03_fr_loop_infinite_space_refuted.
